@@ -194,8 +194,8 @@ def write_evidence(ctx: Ctx, mod, rec: Recorder, wall: float, nviol: int, known_
         jsonschema.validate(ev, schema)
     except ImportError:
         pass
-    out = env.VERIF / "evidence" / f"{ctx.prop}.json"
-    out.parent.mkdir(exist_ok=True)
+    out = Path(os.environ.get("HV_EVIDENCE_DIR", str(env.VERIF / "evidence"))) / f"{ctx.prop}.json"
+    out.parent.mkdir(parents=True, exist_ok=True)
     out.write_text(json.dumps(ev, indent=1, sort_keys=True, default=str) + "\n")
     return out
 
@@ -311,7 +311,8 @@ def main(argv=None) -> int:
         print(f"KNOWN-FINDING: property={prop} {fid}: {known_desc[fid]} (observed {known_hit[fid]}x)")
 
     if fresh:
-        rdir = env.VERIF / "replays" / prop
+        rbase = Path(os.environ["HV_EVIDENCE_DIR"]) / "replays" if os.environ.get("HV_EVIDENCE_DIR") else env.VERIF / "replays"
+        rdir = rbase / prop
         rdir.mkdir(parents=True, exist_ok=True)
         seen = set()
         first = None
